@@ -1253,14 +1253,32 @@ where
 }
 
 /// which actor does this address belong to?  Live instances answer a call; for dead ones the
-/// harness cannot tell (usize::MAX is reported by the callers).
+/// harness cannot tell (usize::MAX is reported by the callers).  The handle is one the registry
+/// handed out (previous entry): it is also used like any other Addr - liveness queries on it, its
+/// clone and its weak form, and for a dead one an await - and what it says must be consistent.
 async fn actor_of<const K: u8>(a: &Addr<Probe<K>>) -> Option<ActorId>
 where
     Probe<K>: Wrap,
 {
-    match ident_of(a).await {
-        Ident::Live { actor, .. } => Some(actor),
-        Ident::Dead { .. } => None,
+    let stopped_first = a.stopped();
+    let weak_stopped_first = a.downgrade().stopped();
+    let id = ident_of(a).await;
+    match id {
+        Ident::Live { actor, .. } => {
+            if stopped_first || weak_stopped_first {
+                log(EvKind::Note(format!("INCONSISTENT previous registry entry (actor {actor}): stopped()={stopped_first} / weak stopped()={weak_stopped_first}, yet it answered a call afterwards")));
+            }
+            Some(actor)
+        }
+        Ident::Dead { .. } => {
+            // terminated (or terminating): the await resolves, and from then on every handle says stopped
+            let _ = a.clone().await;
+            let (s, r, w, c) = (a.stopped(), a.running(), a.downgrade().stopped(), a.clone().stopped());
+            if !s || r || !w || !c {
+                log(EvKind::Note(format!("INCONSISTENT previous registry entry: awaiting it resolved, afterwards stopped()={s} running()={r} weak stopped()={w} clone stopped()={c}")));
+            }
+            None
+        }
     }
 }
 
